@@ -47,6 +47,9 @@ func pickPID(r *rand.Rand, used map[uint16]bool) uint16 {
 		default:
 			p = uint16(0x20 + r.IntN(0x1FFE-0x20+1))
 		}
+		if p >= 0x1F00 && p <= 0x1FEF {
+			continue // reserved for the filler programs of large PATs (SimpleSection)
+		}
 		if !used[p] {
 			used[p] = true
 			return p
